@@ -212,7 +212,7 @@ func runC19(c *mon.Ctx) {
 		}
 	}
 
-	c.Each("roundtrip", c.N(5000, 100_000), func(i int64, r *mon.Rand) {
+	c.Each("roundtrip", c.N(5000, 500_000), func(i int64, r *mon.Rand) {
 		n := r.Range(1, 12)
 		var recs []rec
 		var stream []byte
@@ -249,7 +249,7 @@ func runC19(c *mon.Ctx) {
 	})
 
 	// mutated lines between two intact lines
-	c.Each("mutants", c.N(20_000, 400_000), func(i int64, r *mon.Rand) {
+	c.Each("mutants", c.N(20_000, 3_000_000), func(i int64, r *mon.Rand) {
 		a, b := genRec(r), genRec(r)
 		for len(a.msg) > 40 {
 			a.msg = a.msg[:40]
